@@ -166,6 +166,13 @@ func c19(c *core.Ctx) {
 			if t.Value() != v&0x3fff {
 				c.Violate("inverse", "Value(ReadValue)", map[string]interface{}{"v": v, "got": t.Value()})
 			}
+			// the same reading through the decoder: a 20-byte datagram whose first two bytes are v (the two leading bits
+			// are not part of the type; a datagram is a STUN message only when they are zero, so they are cleared here)
+			hdr := [20]byte{byte(v>>8) & 0x3f, byte(v), 0, 0, 0x21, 0x12, 0xa4, 0x42}
+			var dm stun.Message
+			if err := stun.Decode(hdr[:], &dm); err != nil || uint16(dm.Type.Method) != m || uint8(dm.Type.Class) != cl {
+				c.Violate("readvalue-mismatch", "Decode:type", map[string]interface{}{"v": v & 0x3fff, "err": fmt.Sprint(err), "got_method": dm.Type.Method, "got_class": dm.Type.Class, "want_method": m, "want_class": cl})
+			}
 			if v == 0x0111 {
 				c.Sample(map[string]interface{}{"wire": v, "method": uint16(t.Method), "class": uint8(t.Class)})
 			}
